@@ -7,6 +7,7 @@ pub mod c05;
 pub mod c07;
 pub mod c08;
 pub mod c09;
+pub mod c10;
 pub mod c11;
 pub mod c12;
 pub mod c13;
@@ -38,6 +39,7 @@ pub fn check(id: &str, tier: &str) -> i32 {
         "C07" => c07::check(tier),
         "C08" => c08::check(tier),
         "C09" => c09::check(tier),
+        "C10" => c10::check(tier),
         "C11" => c11::check(tier),
         "C12" => c12::check(tier),
         "C13" => c13::check(tier),
